@@ -33,6 +33,8 @@ type Gen struct {
 	// WrapLog (percent): wrap int / bool / string / float64 sub-expressions in a logging call, so that the
 	// order and the number of evaluations of every operand becomes observable in the call log
 	WrapLog int
+	// Zoo (percent): take an access path into the zoo (zoo.go) where a value of its type is needed
+	Zoo int
 	// statistics
 	Excluded map[string]int
 }
@@ -85,6 +87,11 @@ func (g *Gen) Root() *X {
 // Expr builds an expression whose value has dynamic type ty.
 func (g *Gen) Expr(ty *Ty, d int) *X {
 	g.Fuel--
+	if g.Zoo > 0 && g.pick(100, "zoo?") < g.Zoo {
+		if x := g.zooLeaf(ty); x != nil {
+			return x
+		}
+	}
 	if d <= 0 || g.Fuel <= 0 {
 		return g.Leaf(ty)
 	}
